@@ -14,6 +14,7 @@ import (
 	"io"
 	"net"
 	"os"
+	"os/exec"
 	"path/filepath"
 	"runtime/debug"
 	"strings"
@@ -708,7 +709,7 @@ func c20MultiBroker(res *vlib.Result, working []bool, stagger time.Duration) {
 func C20Plan() *vlib.Plan {
 	p := &vlib.Plan{
 		Property: "C20", Level: "exploration",
-		Rule:   "E-ENUM of arrival orders. (1) accept loop (in-package seam) over a scripted listener: all sequences of length <= L over 11 connection kinds {legit id, wrong id, empty id, id of an earlier request, 39-char prefix of the id, non-hello command, garbage, truncated hello, oversized ad, immediate close, hello without id}; the returned conn must be the first one that presented the id, every earlier one closed, none returned otherwise. (2) proxied request over a scripted broker stream: 11 reply shapes; a conn only after success + matching hello. (3) Dial in standard mode against in-process brokers on loopback TCP: every ordering of {reply-ok, reply-fail} x {legit, 4 rogue kinds} up to 3 events (a rogue's turn ends when it observes its own close), each run twice; 1-3 brokers with every working subset x stagger {-1, 20 ms}: the returned conn delivers the token written on the legit reverse connection. (4) 10^4 generated connect ids are 40 hex characters and pairwise distinct. Non-trivial = at least one connection/reply consumed by the dialer. (4) connect-id freshness per request: 2 and 3 scripted brokers sharing one scenario (whichever is asked first fails; the next lets a rogue present the EARLIER request's id, then the legitimate connection), sequential and staggered: all requests of one dial carry distinct ids and the rogue is never returned. (5) a dial whose reverse-connect port is an anonymous shared-port endpoint: neither the advertised return address nor the socket's file name contains any 8-character piece of the connect id. (6) a nested multi-hop contact (entry#7#3) through Dial against a scripted entry broker answering on the request's own connection with {matching hello, wrong id, empty id, garbage, failure reply}: only the matching hello yields a connection, every other answer ends in an error with the broker connection closed. (7) held hellos: legitimate and rogue connections {wrong id, garbage, mute; thorough: earlier id, two rogues} are opened and greeted in every interleaving on the TCP listener and on a shared-port endpoint (SendForwardedConn), GC suspended: only the connection that presented the id is returned, every other one that reached the port ends closed.",
+		Rule:   "E-ENUM of arrival orders. (1) accept loop (in-package seam) over a scripted listener: all sequences of length <= L over 11 connection kinds {legit id, wrong id, empty id, id of an earlier request, 39-char prefix of the id, non-hello command, garbage, truncated hello, oversized ad, immediate close, hello without id}; the returned conn must be the first one that presented the id, every earlier one closed, none returned otherwise. (2) proxied request over a scripted broker stream: 11 reply shapes; a conn only after success + matching hello. (3) Dial in standard mode against in-process brokers on loopback TCP: every ordering of {reply-ok, reply-fail} x {legit, 4 rogue kinds} up to 3 events (a rogue's turn ends when it observes its own close), each run twice; 1-3 brokers with every working subset x stagger {-1, 20 ms}: the returned conn delivers the token written on the legit reverse connection. (4) 10^4 generated connect ids are 40 hex characters and pairwise distinct, and two fresh processes started with math/rand's automatic seeding switched off (GODEBUG=randautoseed=0) do not generate the same ids. Non-trivial = at least one connection/reply consumed by the dialer. (4) connect-id freshness per request: 2 and 3 scripted brokers sharing one scenario (whichever is asked first fails; the next lets a rogue present the EARLIER request's id, then the legitimate connection), sequential and staggered: all requests of one dial carry distinct ids and the rogue is never returned. (5) a dial whose reverse-connect port is an anonymous shared-port endpoint: neither the advertised return address nor the socket's file name contains any 8-character piece of the connect id. (6) a nested multi-hop contact (entry#7#3) through Dial against a scripted entry broker answering on the request's own connection with {matching hello, wrong id, empty id, garbage, failure reply}: only the matching hello yields a connection, every other answer ends in an error with the broker connection closed. (7) held hellos: legitimate and rogue connections {wrong id, garbage, mute; thorough: earlier id, two rogues} are opened and greeted in every interleaving on the TCP listener and on a shared-port endpoint (SendForwardedConn), GC suspended: only the connection that presented the id is returned, every other one that reached the port ends closed.",
 		Assume: []string{"(3) uses real loopback TCP and goroutines: where a failure reply and the matching hello are both available either documented outcome is accepted", "the 'nothing decisive arrives' scripts rely on the dial's own 300 ms timeout"},
 	}
 	p.Gen = func(tier string, yield func(vlib.Case)) {
@@ -741,6 +742,11 @@ func C20Plan() *vlib.Plan {
 			for _, r := range c20ProxyReplies {
 				c20Proxy(res, r)
 			}
+			return res
+		}})
+		yield(vlib.Case{ID: "connect-ids-across-processes", Run: func() *vlib.Result {
+			res := &vlib.Result{}
+			c20Predictable(res)
 			return res
 		}})
 		yield(vlib.Case{ID: "connect-ids", Run: func() *vlib.Result {
@@ -849,4 +855,43 @@ func C20Plan() *vlib.Plan {
 		}
 	}
 	return p
+}
+
+
+// C20IDWorker (a fresh process, see c20Predictable): prints the first connect ids this process
+// generates.
+func C20IDWorker() {
+	for i := 0; i < 4; i++ {
+		id, err := ccb.GenerateConnectID()
+		fmt.Println("ID", id, err)
+	}
+}
+
+// c20Predictable: "unguessable" cannot be enumerated, but one way of being guessable can be
+// decided exactly: an identifier drawn from a generator that the process environment can pin.
+// Two fresh processes are started with Go's automatic seeding of math/rand switched off
+// (GODEBUG=randautoseed=0, a legal runtime setting): if the connect ids they generate are the
+// same, anybody who knows the setting can compute the ids of a request it never saw.
+func c20Predictable(res *vlib.Result) {
+	res.Evals++
+	res.Nontrivial++
+	self, _ := os.Executable()
+	run := func(godebug string) string {
+		cmd := exec.Command(self, "C20", "quick")
+		cmd.Env = append(os.Environ(), "VERIF_C20_IDWORKER=1", "GODEBUG="+godebug)
+		b, _ := cmd.Output()
+		return string(b)
+	}
+	for _, gd := range []string{"randautoseed=0", "randautoseed=0,randseednop=0"} {
+		a, b := run(gd), run(gd)
+		if !strings.Contains(a, "ID ") {
+			res.Violate("C20/harness", "id worker printed nothing: %q", a)
+			return
+		}
+		if a == b {
+			res.Violate("C20/connect-id-predictable", "two fresh processes started with GODEBUG=%s generate the same connect ids (%s...): the ids come from a generator the environment can pin, not from the system's random source", gd, strings.SplitN(strings.TrimPrefix(a, "ID "), " ", 2)[0])
+			return
+		}
+	}
+	res.Outcome("connect-ids-differ-across-pinned-processes")
 }
